@@ -366,6 +366,8 @@ def explore(
     use_routes = [r for r in routes if file_mode or r in ("bytes", "dict")]
     if "dict" in use_routes:
         use_routes = use_routes + ["dict_live"]
+    if "bytes" in use_routes and len(routes) > 2:
+        use_routes = use_routes + ["pkl"]  # the same bytes in a .pkl file, named by its path (the non-HDF5 branch of the file route)
     for si, st in enumerate(st_list):
         ck_state = pickle.loads(st["payload"])
         it0 = ck_state.get("iteration")
